@@ -20,6 +20,7 @@ ASSUMPTIONS = [
     'discriminator values are compared as Pony does (dict key equality); the model maps distinct values to distinct integers',
     'rows of a table were created through Pony by classes of that tree (no foreign discriminator values, no NULL discriminators)',
     'one discriminator column per tree, declared on the root (Pony rejects anything else); composite keys and per-class attribute sets do not enter the statement',
+    'C27_collection_item is about iteration inside a live db_session (Set.copy refines the items only then, commit 233f906); detached objects are C32',
     'the class refinement theorem covers an object first met through a reference typed as an ancestor; the NotImplementedError branch of _get_from_identity_map_ '
     '(seed with read/write bits) is exercised by the search only',
 ]
